@@ -833,7 +833,11 @@ where
         assert!(block_size::is_valid(block_size));
         assert!(block_hash_1.len() <= S1);
         assert!(block_hash_2.len() <= S2);
-        Self::new_from_internals_internal(block_size, block_hash_1, block_hash_2)
+        Self::new_from_internals_near_raw(
+            block_size::log_from_valid_internal(block_size),
+            block_hash_1,
+            block_hash_2,
+        )
     }
 
     /// The *base-2 logarithm* form of the block size.
